@@ -43,6 +43,29 @@ def native_sub(name, conc, notes):
                       f"(moved: {moved}, overlaps the temporary: {overlap_t})"}
 
 
+def replay_hash_dest(d):
+    """the bytes the real generator emits for the statement, run on the
+    counter-model's stack and hash cells (ISA model, concrete mode)"""
+    from contracts import c04_frame as S
+    from vc.bpfvc import Env, MapModel, run_concrete
+    info = S.build(d["stmt"])
+    ks, vs = info["dict_sizes"]
+    maps = {77: MapModel("array", 4, info["map_size"]), 78: MapModel("hash", 1, 8), 79: MapModel("hash", ks, vs)}
+    mem = {"stack": d["stack"]}
+    for n, cell in d["cells"].items():
+        mem[f"map78:{bytes([info['hashvars'][n][1]]).hex()}"] = cell
+    present = {k: True for k in mem if k.startswith("map78:")}
+    r = run_concrete(info["code"], Env(ctx=None, maps=maps), regs={1: 0}, mem=mem,
+                     helper_script={"present": present})
+    key = f"map78:{bytes([info['hashvars'][d['dest']][1]]).hex()}"
+    got = int.from_bytes(bytes(r[3].get(key, b""))[:d["size"]], "little")
+    return {"inputs": {"statement": d["stmt"], "stack": d["stack"][384:].hex(),
+                       "cells": {k: v.hex() for k, v in d["cells"].items()}},
+            "reproduced": got != d["expected"],
+            "detail": f"ISA model (concrete) on the real bytes of `{d['stmt']}`: {d['dest']} received "
+                      f"{got:#x}, the expression's value is {d['expected']:#x}"}
+
+
 def frame_jobs(rep, tier):
     from contracts import c04_frame as S
     from vc.bpfvc import Env, MapModel
@@ -77,10 +100,10 @@ def frame_jobs(rep, tier):
             rep.out_of_reach(f"{stmt}: aborted paths")
             continue
 
-        def add(clause, hyps, goal, text, canary=False):
+        def add(clause, hyps, goal, text, canary=False, on_model=None):
             name = f"{clause} <{stmt}>"
             texts[name] = text
-            jobs.append((name, list(hyps), goal, 20000, None, canary))
+            jobs.append((name, list(hyps), goal, 20000, on_model, canary))
         for ob in res.obligations:
             cond = ob.cond if not isinstance(ob.cond, bool) else z3.BoolVal(ob.cond)
             add(f"safety[{ob.kind}@slot{ob.slot}]", ob.pc, cond, ob.desc)
@@ -126,6 +149,43 @@ def frame_jobs(rep, tier):
                     add(f"hash_variable_unchanged[{n}]", path.pc,
                         A.rd_le(path.regions[rname].mem, 0, 8) == A.rd_le(init, 0, 8),
                         f"hash-map variable {n} keeps its value")
+            if stmt in S.HASH_VALUES and dest in info["hashvars"]:
+                size, expected = S.HASH_VALUES[stmt]
+                hf = hfd.get("hmap", 78)
+
+                class St:
+                    @staticmethod
+                    def local(n):
+                        fmt, rel = info["locals"][n]
+                        return A.rd_le(stack0, A.stack_off(rel), A.FMT_SIZE[fmt])
+
+                    @staticmethod
+                    def hash(n, nbytes):
+                        rn = hash_region_name(hf, bytes([info["hashvars"][n][1]]))
+                        return A.rd_le(z3.Array(rn + "_init", z3.BitVecSort(64), z3.BitVecSort(8)), 0, nbytes)
+
+                    @staticmethod
+                    def zext(v, bits):
+                        return z3.ZeroExt(bits - v.size(), v)
+                rname = hash_region_name(hf, bytes([info["hashvars"][dest][1]]))
+                reg = path.regions.get(rname)
+                exp = expected(St)
+                goal = z3.BoolVal(False) if reg is None or reg.mem is None else \
+                    A.rd_le(reg.mem, 0, size) == exp
+
+                def on_model(m, exp=exp, hf=hf, info=info, size=size, dest=dest, stmt=stmt):
+                    ev = lambda t: m.eval(t, model_completion=True).as_long()      # noqa: E731
+                    stack = bytes(ev(z3.Select(stack0, z3.BitVecVal(k, 64))) for k in range(512))
+                    cells = {}
+                    for n, (f, count) in info["hashvars"].items():
+                        rn = hash_region_name(hf, bytes([count]))
+                        arr = z3.Array(rn + "_init", z3.BitVecSort(64), z3.BitVecSort(8))
+                        cells[n] = bytes(ev(z3.Select(arr, z3.BitVecVal(k, 64))) for k in range(8))
+                    return {"stack": stack, "cells": cells, "expected": ev(exp), "size": size, "dest": dest,
+                            "stmt": stmt}
+                add(f"hash_destination_receives_the_value[{dest}]", path.pc, goal,
+                    "the value spilled to a temporary reaches the variable's cell: the key temporary of the "
+                    "update does not overwrite it", on_model=on_model)
             # the statement does something: canary on the destination
         # scratch use stays below the declared frame
     return jobs, texts, nprog
@@ -156,8 +216,11 @@ def run(tier, seed):
     rep.extra["programs"] = nprog
     rep.extra["vc_queries"] = rep.extra.get("vc_queries", 0) + len(jobs)
     for name, m in merged.items():
+        rp = None
+        if isinstance(m.get("data"), dict) and "cells" in m["data"]:
+            rp = lambda _m, d=m["data"]: replay_hash_dest(d)      # noqa: E731
         rep.obligation(name, parallel.to_result(m), func="generated program bytes", text=texts[name],
-                       candidate=m.get("candidate", False))
+                       candidate=m.get("candidate", False), replay=rp)
     x = z3.BitVec("x", 8)
     rep.canary("CANARY[every byte is zero]", smt.prove([], x == 0))
     return rep.finish(
